@@ -60,6 +60,7 @@ def run(F, rep, tier):
     skipper_rule(F, rep)
     layout_siblings_rule(F, rep)
     utf8_mask_rule(F, rep)
+    comment_extent_rule(F, rep)
     char_class_rule(F, rep)
     binary_action_rule(F, rep)
     a = lalr.build_lalr(g)
@@ -995,3 +996,64 @@ def utf8_mask_rule(F, rep):
                               "(a string literal such as \"\\uD83D\\uDE4F\" is rejected or denotes another character)" % (name.split("::")[-1], mask["v"], tag["v"], b.get("l"), tag["v"], PAIRS[tag["v"]]),
                               "%s:%s" % (h["file"], b.get("l")))
     rep.floor(rid, "UTF-8 byte constructions in the escape decoder", n, 13)
+
+
+COMMENT_TEXTS = ["/* x */ + 1", "/** doc **/+2", "/***/1", "/****/1", "/* x **/y", "/* a * b */x", "/* a / b */x", "/*/ x */1", "/**/1", "/* x *", "/* unterminated", "/*", "/",
+                 "// c\nx", "// c", "//\n", "///\n1", "// a */ b\n1", "1+2", "/ 2", "* /", "a /* c */", " /* c */"]
+
+
+def comment_extent_rule(F, rep):
+    """R06.13: what a comment is.  A block comment `/*` extends to the first `*/` behind its opener (to the end of the text when there is none), a line comment `//` to the end
+    of the line; anything else is not a comment.  The lexer's comment skipper is folded (concrete loops over the character input, the cursor a field of the lexer record) on a table of
+    texts; the cursor must stand behind the comment - neither inside it (the rest of the comment would be read as tokens) nor behind it (tokens would be swallowed)."""
+    from hireval import Evaluator, State, TooManyPaths
+    rid = rep.rule("R06.13", "the comment skipper, folded on a table of texts, leaves the cursor exactly behind the comment: a block comment ends at the first `*/` behind its opener, a line comment at the end of the line")
+    cands = [n for n in F.hir if n.startswith("dmntk_feel_parser::lexer::Lexer") and n.split("::")[-1] == "consume_comment"]
+    if len(cands) != 1:
+        rep.missing_anchor(rid, "Lexer::consume_comment")
+        return
+    fn = cands[0]
+    h = F.hir[fn]
+
+    def want(t):
+        if t.startswith("/*"):
+            i = t.find("*/", 2)
+            return len(t) if i < 0 else i + 2
+        if t.startswith("//"):
+            i = t.find("\n")
+            return len(t) if i < 0 else i
+        return 0
+    bad, unknown, ok = [], [], 0
+    helpers = {n for n in F.hir if n.startswith("dmntk_feel_parser::lexer::") and "{closure" not in n and n != fn and n.split("::")[-1] not in ("read_input", "next_token", "read_next_token")}
+    for t in COMMENT_TEXTS:
+        ev = Evaluator(F, ints=True, max_paths=800, inline=helpers)
+        ev.vecs = True
+        ev.crate = h.get("_crate")
+        st = State({})
+        lex = ("rec", {"input": ("array", [("lit", c) for c in t]), "position": ("lit", 0)})
+        for p, a in zip(h["params"], [lex]):
+            ev.match(p, a, st.env)
+        try:
+            outs = list(ev.ev(h["body"], st))
+        except (TooManyPaths, ValueError, KeyError, TypeError, IndexError, RecursionError) as x:
+            unknown.append("%r: %s" % (t, type(x).__name__))
+            continue
+        pos = set()
+        for s2, v in outs:
+            me = s2.env.get("self")
+            p2 = me[1].get("position") if isinstance(me, tuple) and me and me[0] == "rec" else None
+            pos.add(p2[1] if (not s2.conds and isinstance(p2, tuple) and p2[0] == "lit" and isinstance(p2[1], int)) else None)
+        if len(pos) != 1 or None in pos:
+            unknown.append("%r: the cursor does not fold" % t)
+        elif pos != {want(t)}:
+            bad.append("%r: the cursor stops at %d, the comment ends at %d" % (t, pos.pop(), want(t)))
+        else:
+            ok += 1
+    where = "%s:%s" % (h["file"], h["line"])
+    if bad:
+        rep.violation(rid, "comment:extent", "the comment skipper does not stop where the comment ends: %s" % "; ".join(bad[:4]), where)
+    elif unknown:
+        rep.undecided(rid, "comment:extent", "%d of %d texts fold, %d do not: %s" % (ok, len(COMMENT_TEXTS), len(unknown), "; ".join(unknown[:2])))
+    else:
+        rep.ok(rid, "comment:extent", "%d texts: the cursor stands exactly behind the comment" % ok)
+    rep.floor(rid, "comment texts folded", ok + len(bad), 18)
